@@ -12,6 +12,9 @@ RULE = ("every directed mixed graph CYC(n) (any subset of the n(n-1) directed an
         "returned graph is edited and the call repeated, also on G.copy(); frozenset arguments) and a CUSTOM edge-type names stream "
         "for acyclification (beyond the property's quantifier); the empty graph; every n<=2 and a third of the n=3 graphs and a third of the random ones also as pywhy_graphs.ADMG "
         "instance / three-layer MixedEdgeGraph with an edge-less undirected layer; query sets checked for mutation; "
+        "a MANY-COMPONENT stream (3-6 cyclic components of 2-3 nodes plus 2-5 trivial ones, 9-16 nodes, interleaved node ids, sparse "
+        "directed and bidirected links between components, each graph under 4 (10 when the cyclic components are joined in disjoint pairs) insertion orders, sigma oracle off there) and two "
+        "2-cycles plus an outside node with a bidirected edge into one of them under 6 insertion orders each; "
         "identity-hashed label objects (graphs.labeler family 'obj'); a preceding call on an unrelated graph (cross-call contamination); "
         "a DEEP stream of three chains of 75-150 two-cycles (150-300 nodes) run with the recursion limit lowered to depth+120, whose "
         "expected edges come from an independent Python reference of the characterisation (the cubic Coq model is not run there) and "
@@ -123,6 +126,47 @@ def random_components_graph(rng, n):
     return gr.G(range(n), D=sorted(D), B=B)
 
 
+def many_sc_graph(rng, matched=False):
+    """3-6 cyclic strongly connected components (2-3 nodes) plus 2-5 trivial ones, 9-16 nodes, in a random topological order of
+    the components; sparse directed links forward, sparse bidirected links between components and from single nodes to
+    components; node ids shuffled so that the components interleave"""
+    while True:
+        sizes = [rng.randint(2, 3) for _ in range(rng.randint(4 if matched else 3, 6))] + [1] * rng.randint(3 if matched else 2, 5)
+        if 9 <= sum(sizes) <= 16:
+            break
+    rng.shuffle(sizes)
+    ids = list(range(sum(sizes)))
+    rng.shuffle(ids)
+    comps, i = [], 0
+    for sz in sizes:
+        comps.append(ids[i:i + sz])
+        i += sz
+    D, B = set(), set()
+    for c in comps:
+        if len(c) > 1:
+            for k in range(len(c)):
+                D.add((c[k], c[(k + 1) % len(c)]))
+            if len(c) == 3 and rng.random() < 0.3:
+                D.add((c[1], c[0]))
+    pd, pb = rng.choice([0.1, 0.2]), rng.choice([0.15, 0.3])
+    for a in range(len(comps)):
+        for b in range(a + 1, len(comps)):
+            if rng.random() < pd:
+                D.add((rng.choice(comps[a]), rng.choice(comps[b])))
+            both_cyclic = len(comps[a]) > 1 and len(comps[b]) > 1
+            if rng.random() < (pb if both_cyclic else pb / 2):
+                x, y = rng.choice(comps[a]), rng.choice(comps[b])
+                B.add((min(x, y), max(x, y)))
+    if matched:
+        # the cyclic components are joined in disjoint pairs by one bidirected edge each (several joined pairs at once)
+        cyc = [c for c in comps if len(c) > 1]
+        rng.shuffle(cyc)
+        for a, b in zip(cyc[0::2], cyc[1::2]):
+            x, y = rng.choice(a), rng.choice(b)
+            B.add((min(x, y), max(x, y)))
+    return gr.G(range(len(ids)), D=sorted(D), B=sorted(B))
+
+
 def random_digraph(rng, n):
     p = rng.choice([0.1, 0.2, 0.3])
     D = [[a, b] for a in range(n) for b in range(n) if a != b and rng.random() < p]
@@ -183,6 +227,23 @@ def gen_cases(tier, rng):
             g = cyc_from_code(n, code)
             yield {"kind": "obj%d" % n, "g": g, "layers": ["directed", "bidirected"], "qs": queries(g["V"]), "oracle": True,
                    "_lab": "obj", **({"rep": rng.randrange(1 << 30)} if code % 10 == 0 and (g["D"] or g["B"]) else {})}
+    # MANY-COMPONENT stream (flavour Q): 9-16 nodes, each graph under several node / edge insertion orders (`_order`), sigma
+    # oracle off (too slow), model = proved acyclification + m-separation model
+    for i in range(90 if tier == "quick" else 600):
+        g = many_sc_graph(rng, matched=i % 2 == 1)
+        qs = rand_queries(rng, len(g["V"]), 12)
+        for o in range(10 if i % 2 == 1 else 4):
+            yield {"kind": "manysc", "g": g, "layers": ["directed", "bidirected"], "qs": qs if o == 0 else qs[:3], "oracle": False,
+                   **({"_order": rng.randrange(1 << 30)} if o else {}), **({"okind": "admg"} if o == 3 else {})}
+    # two 2-cycles {0,1},{2,3} and one outside node 4 with a bidirected edge into one of them (and variants), 6 insertion orders each
+    for b4 in range(4):
+        for link in ([], [[1, 2]], [[3, 0]], [[4, 2]], [[1, 4]]):
+            for extra in ([], [[0, 3]]):
+                g = gr.G(range(5), D=[[0, 1], [1, 0], [2, 3], [3, 2]] + link, B=[[b4, 4]] + extra)
+                qs = queries(g["V"])[:40]
+                for o in range(6):
+                    yield {"kind": "two2c", "g": g, "layers": ["directed", "bidirected"], "qs": qs if o == 0 else qs[:4],
+                           "oracle": o == 0, **({"_order": 1000 * b4 + o} if o else {})}
     # the design's witness and its bidirected sibling, always
     for g in (gr.G(range(4), D=[[0, 1], [1, 0], [1, 2], [2, 3], [3, 2]]),
               gr.G(range(4), D=[[0, 1], [1, 0], [2, 3], [3, 2]], B=[[1, 2]])):
@@ -402,7 +463,7 @@ def nontrivial(case, model):
 
 def key(case):
     return (gr.canon(case["g"]), tuple(case["layers"]), case.get("rep") is not None, tuple(case.get("names") or ()),
-            case.get("okind", "mixed"))
+            case.get("okind", "mixed"), case.get("_order"))
 
 
 def shrink(case):
